@@ -423,8 +423,16 @@ func runIter(c Single) (trace, error) {
 	case "Runs":
 		outer := iterator.Runs[int](src, c.same)
 		run := 0
+		var ended []iterator.Iterator[int] // inner iterators that have reported their end
 		next = func() ([]int, bool) {
 			inner, ok := outer.Next()
+			// sticky end also holds for the inner iterators: one that has reported its end keeps doing so,
+			// whatever the outer iterator has moved on to meanwhile
+			for _, e := range ended {
+				if x, again := e.Next(); again {
+					return []int{-998, x}, true
+				}
+			}
 			if !ok {
 				return nil, false
 			}
@@ -440,6 +448,7 @@ func runIter(c Single) (trace, error) {
 					if _, again := inner.Next(); again {
 						got = append(got, -999) // inner end not sticky
 					}
+					ended = append(ended, inner)
 					break
 				}
 				got = append(got, x)
@@ -602,8 +611,14 @@ func runStream(c Single) (trace, error) {
 		outer := stream.Runs[int](src, c.same)
 		closer = outer.Close
 		run := 0
+		var ended []stream.Stream[int]
 		next = func() ([]int, bool) {
 			inner, err := outer.Next(bg)
+			for _, e := range ended {
+				if x, err2 := e.Next(bg); err2 != stream.End {
+					return []int{-998, x}, true
+				}
+			}
 			if err == stream.End {
 				return nil, false
 			}
@@ -623,6 +638,7 @@ func runStream(c Single) (trace, error) {
 					if _, err2 := inner.Next(bg); err2 != stream.End {
 						got = append(got, -999)
 					}
+					ended = append(ended, inner)
 					break
 				}
 				if err != nil {
